@@ -236,10 +236,23 @@ func init() {
 		return fr.fc.fresh("joined", SString)
 	}
 	// WaitGroup bookkeeping: no effect on the modelled state (blocking is not modelled)
-	for _, k := range []string{"sync.(*WaitGroup).Add", "sync.(*WaitGroup).Done", "sync.(*WaitGroup).Wait"} {
+	for _, k := range []string{"sync.(*WaitGroup).Add", "sync.(*WaitGroup).Done"} {
 		libModels[k] = func(fr *frame, in ssa.Instruction, c *ssa.CallCommon, args []Val, st *State, reach string) Val {
 			return nil
 		}
+	}
+	// Wait: the goroutines deferred to the join (channel consumers) run now, in spawn order
+	libModels["sync.(*WaitGroup).Wait"] = func(fr *frame, in ssa.Instruction, c *ssa.CallCommon, args []Val, st *State, reach string) Val {
+		pend := fr.pendingGo
+		fr.pendingGo = nil
+		for _, g := range pend {
+			if !g.Block().Dominates(in.Block()) {
+				fr.pendingGo = append(fr.pendingGo, g) // spawned on another path
+				continue
+			}
+			fr.call(g, &g.Call, st, reach)
+		}
+		return nil
 	}
 	// functions that neither read nor write the modelled heap and whose result is left unconstrained
 	for _, k := range []string{".(error).Error", "context.Background", "context.TODO", "(*github.com/google/badwolf/bql/planner/tracer.Arguments).String"} {
